@@ -25,7 +25,7 @@ func (e *Exec) specState(st *State) *State {
 func (e *Exec) tryInline(st *State, pkg *packages.Package, decl *ast.FuncDecl, sig *types.Signature, recv *Val, args []Val, full string, x *ast.CallExpr) (res Val, ok bool) {
 	snap := st.clone()
 	nFrames, nStack, nObl := len(e.frames), len(e.stack), len(e.obls)
-	quiet, binders, inC := e.quiet, e.binders, e.inContract
+	quiet, binders, inC := e.quiet, e.sc.binders, e.inContract
 	top := e.top()
 	nRet, nPan, nJ := len(top.returns), len(top.panics), len(top.jumps)
 	defer func() {
@@ -36,7 +36,7 @@ func (e *Exec) tryInline(st *State, pkg *packages.Package, decl *ast.FuncDecl, s
 			e.frames = e.frames[:nFrames]
 			e.stack = e.stack[:nStack]
 			e.obls = e.obls[:nObl]
-			e.quiet, e.binders, e.inContract = quiet, binders, inC
+			e.quiet, e.sc.binders, e.inContract = quiet, binders, inC
 			top.returns, top.panics, top.jumps = top.returns[:nRet], top.panics[:nPan], top.jumps[:nJ]
 			*st = *snap
 			res, ok = Val{}, false
